@@ -54,7 +54,7 @@ Fixpoint recs (thr lim d : N) (c : call) : list rec :=
       if lim <=? d then []
       else
         let ks := flat_map (recs thr lim (d + 1)) kids in
-        if (thr <? t1 - t0) || negb (is_nil ks)
+        if (thr <=? t1 - t0) || negb (is_nil ks)
         then {| r_time := t0; r_type := ENTRY; r_depth := d; r_addr := a |} :: ks ++
              [{| r_time := t1; r_type := EXIT; r_depth := d; r_addr := a |}]
         else []
